@@ -414,3 +414,96 @@ func collectVars(t *Term, seen map[string]bool, out *[]*Term) {
 		collectVars(a, seen, out)
 	}
 }
+
+// substTerm replaces variables by constants and re-folds the term with the builders.
+func substTerm(t *Term, env map[string]*Term) *Term {
+	switch t.Op {
+	case "var":
+		if c, ok := env[t.Name]; ok {
+			return c
+		}
+		return t
+	case "const":
+		return t
+	}
+	args := make([]*Term, len(t.Args))
+	changed := false
+	for k, a := range t.Args {
+		args[k] = substTerm(a, env)
+		if args[k] != a {
+			changed = true
+		}
+	}
+	if !changed {
+		return t
+	}
+	switch t.Op {
+	case "not":
+		return tNot(args[0])
+	case "and":
+		return tAnd(args[0], args[1])
+	case "or":
+		return tOr(args[0], args[1])
+	case "ite":
+		return tIte(args[0], args[1], args[2])
+	case "=", "fp.eq":
+		return tEq(args[0], args[1])
+	case "bvadd", "bvsub", "bvmul", "bvand", "bvor", "bvxor", "bvudiv", "bvurem", "bvsdiv", "bvsrem", "bvshl", "bvlshr", "bvashr":
+		return bvBin(t.Op, args[0], args[1])
+	case "bvneg":
+		return bvNeg(args[0])
+	case "bvnot":
+		return bvNot(args[0])
+	case "bvult", "bvule", "bvslt", "bvsle":
+		return bvCmp(t.Op, args[0], args[1])
+	case "extract":
+		if args[0].isConst() {
+			return mkBV(args[0].Val>>uint(t.Extra[1]), t.S.W)
+		}
+	case "zero_extend":
+		return bvResize(args[0], t.S.W, false)
+	case "sign_extend":
+		return bvResize(args[0], t.S.W, true)
+	case "to_fp_s":
+		return fpFromBV(args[0], true)
+	case "to_fp_u":
+		return fpFromBV(args[0], false)
+	case "fp.to_sbv":
+		return fpToBV(args[0], t.S.W, true)
+	case "fp.to_ubv":
+		return fpToBV(args[0], t.S.W, false)
+	case "fp.add", "fp.sub", "fp.mul", "fp.div":
+		return fpBin(t.Op, args[0], args[1])
+	case "fp.lt", "fp.leq", "fp.gt", "fp.geq":
+		return fpCmp(t.Op, args[0], args[1])
+	}
+	return &Term{Op: t.Op, Args: args, S: t.S, Extra: t.Extra}
+}
+
+// singleVar returns the name of the only variable of t, or "" if there are none or several.
+func singleVar(t *Term) string {
+	name := ""
+	multi := false
+	var rec func(t *Term)
+	rec = func(t *Term) {
+		if multi {
+			return
+		}
+		if t.Op == "var" {
+			if name == "" {
+				name = t.Name
+			} else if name != t.Name {
+				multi = true
+			}
+			return
+		}
+		for _, a := range t.Args {
+			rec(a)
+		}
+	}
+	rec(t)
+	if multi {
+		return ""
+	}
+	return name
+}
